@@ -94,7 +94,7 @@ func (c *Ctx) rulesC10() {
 				if bo, ok := cv.X.(*ssa.BinOp); ok && bo.Op == token.SUB {
 					kind = "difference"
 				}
-				c.check(guarded, "C10.narrow", fmt.Sprintf("%s narrowing %s->%s of tick %s %s", name, cv.X.Type().String(), cv.Type().String(), kind, render(cv.X)), ins.Pos(),
+				c.check(guarded, "C10.narrow", fmt.Sprintf("%s narrowing %s->%s of tick %s %s", name, cv.X.Type().String(), cv.Type().String(), kind, stripIndexes(render(cv.X))), ins.Pos(),
 					fmt.Sprintf("uint%d(%s) truncates without a range check: a delta >= 2^%d is silently reduced and the mirror diverges", to, render(cv.X), to))
 			}
 		}
@@ -129,6 +129,34 @@ func (c *Ctx) rulesC10() {
 			}
 		}
 		if pushed == nil {
+			// computed by a helper of the package: a uint16 call result all of
+			// whose returns are conversions
+			for _, b := range f.Blocks {
+				for _, ins := range b.Instrs {
+					call, ok := ins.(*ssa.Call)
+					if !ok {
+						continue
+					}
+					cal := call.Call.StaticCallee()
+					if cal == nil || len(cal.Blocks) == 0 || cal.Pkg != f.Pkg {
+						continue
+					}
+					if bt, ok := call.Type().Underlying().(*types.Basic); !ok || bt.Kind() != types.Uint16 {
+						continue
+					}
+					allConv := len(returnsOf(cal)) >= 2
+					for _, r := range returnsOf(cal) {
+						if _, ok := retVals(r)[0].(*ssa.Convert); !ok {
+							allConv = false
+						}
+					}
+					if allConv {
+						pushed = call
+					}
+				}
+			}
+		}
+		if pushed == nil {
 			c.undecided("C10.space: pushed-index value not found in " + name)
 			continue
 		}
@@ -142,7 +170,7 @@ func (c *Ctx) rulesC10() {
 				case *ssa.IndexAddr:
 					if loadOfField(x.X) == fMTime {
 						k++
-						c.check(fromPushed(x.Index), "C10.space", fmt.Sprintf("%s index %s[%s] uses the pushed index", name, render(x.X), render(x.Index)), ins.Pos(),
+						c.check(fromPushed(x.Index), "C10.space", fmt.Sprintf("%s index %s[·] uses the pushed index", name, render(x.X)), ins.Pos(),
 							"snapshot times are indexed by "+render(x.Index)+" instead of the pushed index: with a tracked subset the wrong state's tick is compared/sent")
 					}
 				case *ssa.BinOp:
@@ -157,7 +185,7 @@ func (c *Ctx) rulesC10() {
 						}
 						if other != nil {
 							k++
-							c.check(fromPushed(other), "C10.space", fmt.Sprintf("%s bound check %s vs len(mTime) uses the pushed index", name, render(other)), ins.Pos(),
+							c.check(fromPushed(other), "C10.space", fmt.Sprintf("%s bound check vs len(mTime) uses the pushed index", name), ins.Pos(),
 								"the length of the previous snapshot is compared with "+render(other)+" instead of the pushed index")
 						}
 					}
@@ -733,6 +761,28 @@ func (c *Ctx) rulesC09(la *LockAnalysis) {
 			// argument is the snapshot the diff was computed from (the DataLatest value)
 			arg := s.data
 			call, ok := arg.(*ssa.Call)
+			if ex, isEx := arg.(*ssa.Extract); isEx && !ok {
+				// handed out by a private helper of pushClient: every non-nil
+				// value it returns is the tracer's DataLatest()
+				if hc, isCall := ex.Tuple.(*ssa.Call); isCall {
+					if cal := hc.Call.StaticCallee(); cal != nil && len(cal.Blocks) > 0 && c.hostedBy(cal, pc) {
+						all, any := true, false
+						for _, r := range returnsOf(cal) {
+							rv := retVals(r)[ex.Index]
+							if k, isK := rv.(*ssa.Const); isK && k.IsNil() {
+								continue
+							}
+							rc, isC := rv.(*ssa.Call)
+							if !isC || calleeName(&rc.Call) != "DataLatest" {
+								all = false
+							} else {
+								any, call = true, rc
+							}
+						}
+						ok = all && any
+					}
+				}
+			}
 			c.check(ok && calleeName(&call.Call) == "DataLatest", "C09.store", "pushClient stores the snapshot it diffed"+nth(i), s.ins.Pos(), "storeLastPush must receive the tracer's DataLatest() value used for the diff; got "+render(arg))
 		}
 	}
@@ -846,4 +896,28 @@ func pathsPassOrErr(from ssa.Instruction, isTarget func(ssa.Instruction) bool) b
 		return false
 	}
 	return !dfs(from.Block(), instrIndex(from)+1)
+}
+
+// stripIndexes replaces the index expressions of a rendered value by a dot:
+// obligation keys name the indexed vector, not how the position is computed.
+func stripIndexes(s string) string {
+	var out []rune
+	depth := 0
+	for _, r := range s {
+		switch {
+		case r == '[':
+			if depth == 0 {
+				out = append(out, '[', '·')
+			}
+			depth++
+		case r == ']':
+			depth--
+			if depth == 0 {
+				out = append(out, ']')
+			}
+		case depth == 0:
+			out = append(out, r)
+		}
+	}
+	return string(out)
 }
